@@ -6,6 +6,7 @@ From SU Require Import F32 F32Lemmas.
 From SU.Model Require Import PhaseAcc Adsr.
 From SU.Spec Require Import AdsrSpec.
 From SU.Proofs Require Import AdsrClockProofs.
+From SU.Proofs Require Import AdsrKillers.
 Open Scope R_scope.
 
 (** every reachable state satisfies the clock invariant (any sample rate, any f32 arguments) *)
@@ -91,6 +92,69 @@ Proof. exact reaches_rest. Qed.
 Example C02_example : ticks_for (inc_of (of_Z 1000) (time_from (of_bits 1036831949))) = 101%Z.
 Proof. vm_compute. reflexivity. Qed.
 
+(** which parameter an operation writes and which it leaves alone (every other C02 theorem is stated through the model's own period_of) *)
+Theorem C02_params_frame : forall s o,
+  let s' := adsr_step s o in
+  a_attack s' = match o with ASetAttack x => time_from x | _ => a_attack s end /\
+  a_decay s' = match o with ASetDecay x => time_from x | _ => a_decay s end /\
+  a_sustain s' = match o with ASetSustain x => sustain_from x | _ => a_sustain s end /\
+  a_release s' = match o with ASetRelease x => time_from x | _ => a_release s end /\
+  pa_fs (a_pa s') = pa_fs (a_pa s).
+Proof. exact adsr_params_frame. Qed.
+
+(** parameter changes never touch the latched levels or the output *)
+Theorem C02_set_levels_frame : forall s o,
+  match o with ATick | AGateOn | AGateOff => False | _ => True end ->
+  let s' := adsr_step s o in
+  a_von s' = a_von s /\ a_voff s' = a_voff s /\ a_value s' = a_value s.
+Proof. exact adsr_set_levels_frame. Qed.
+
+(** a configured time or level persists until it is set again *)
+Theorem C02_params_persist : forall ops s,
+  let s' := fold_left adsr_step ops s in
+  (Forall (fun o => ~ sets_attack o) ops -> a_attack s' = a_attack s) /\
+  (Forall (fun o => ~ sets_decay o) ops -> a_decay s' = a_decay s) /\
+  (Forall (fun o => ~ sets_sustain o) ops -> a_sustain s' = a_sustain s) /\
+  (Forall (fun o => ~ sets_release o) ops -> a_release s' = a_release s).
+Proof. exact adsr_params_persist. Qed.
+
+(** the phase -> time link, pinned: attack uses the attack time, decay the decay time, release the release time *)
+Theorem C02_period_of_is_phase_time : forall s, period_of s = phase_time s.
+Proof. exact period_of_is_phase_time. Qed.
+
+(** and the increment is computed from that time *)
+Theorem C02_inc_is_phase_time : forall s,
+  adsr_inc s = inc_of (pa_fs (a_pa s)) (phase_time s).
+Proof. exact adsr_inc_is_phase_time. Qed.
+
+(** the tick, phase by phase, with the times spelled out *)
+Theorem C02_tick_explicit : forall s, InvC s -> fs_ok (pa_fs (a_pa s)) ->
+  let s' := adsr_step s ATick in
+  let fs := pa_fs (a_pa s) in
+  let adv (t : f32) (nxt : phase) :=
+    if (pa_acc (a_pa s) + inc_of fs t <? 16777216)%Z
+    then a_state s' = a_state s /\ pa_acc (a_pa s') = (pa_acc (a_pa s) + inc_of fs t)%Z
+    else a_state s' = nxt /\ pa_acc (a_pa s') = 0%Z in
+  match a_state s with
+  | Attack => adv (a_attack s) Decay
+  | Decay => adv (a_decay s) Sustain
+  | Release => adv (a_release s) AtRest
+  | Sustain => a_state s' = Sustain /\ pa_acc (a_pa s') = 0%Z
+  | AtRest => a_state s' = AtRest /\ pa_acc (a_pa s') = 0%Z
+  end.
+Proof. exact tick_explicit. Qed.
+
+(** a new envelope is at rest at 0.0 *)
+Theorem C02_new_at_rest : forall fs,
+  a_state (adsr_new fs) = AtRest /\ a_value (adsr_new fs) = f_0 /\
+  pa_acc (a_pa (adsr_new fs)) = 0%Z /\ pa_fs (a_pa (adsr_new fs)) = fs.
+Proof. exact new_at_rest. Qed.
+
+(** and stays there until the first gate-on, whatever else is called *)
+Theorem C02_rest_until_gate_on : forall fs ops, ~ In AGateOn ops ->
+  a_state (adsr_run fs ops) = AtRest /\ R32 (a_value (adsr_run fs ops)) = 0.
+Proof. exact rest_until_gate_on. Qed.
+
 Print Assumptions C02_invariant.
 Print Assumptions C02_gate_on.
 Print Assumptions C02_gate_off.
@@ -101,3 +165,11 @@ Print Assumptions C02_phase_length.
 Print Assumptions C02_phase_duration.
 Print Assumptions C02_reaches_sustain.
 Print Assumptions C02_reaches_rest.
+Print Assumptions C02_params_frame.
+Print Assumptions C02_set_levels_frame.
+Print Assumptions C02_params_persist.
+Print Assumptions C02_period_of_is_phase_time.
+Print Assumptions C02_inc_is_phase_time.
+Print Assumptions C02_tick_explicit.
+Print Assumptions C02_new_at_rest.
+Print Assumptions C02_rest_until_gate_on.
